@@ -186,8 +186,8 @@ def _splits(tier):
             out.append({'kind': k, 'pairA': ['pd', 'ns'][k % 2], 'pairB': 'pd', 'probes': 1, '_pre': 'not pb1 and not pb2 and not mdb'})
         return out
     for sh in range(len(SHAPES)):
-        for pa in pairs:
-            for pb in pairs:
+        for pa, pb in (('pd', 'pd'), ('ns', 'dn'), ('dn', 'ps'), ('ps', 'ns'), ('pd', 'ns'), ('dn', 'pd')):
+            if True:
                 for bits in range(4):
                     pre = ' and '.join(('' if bits & (1 << i) else 'not ') + v for i, v in enumerate(('pa1', 'pb1')))
                     out.append({'shape': sh, 'pairA': pa, 'pairB': pb, 'probes': 2, '_pre': pre})
